@@ -49,11 +49,13 @@ impl ListDefinition {
     }
 
     pub fn get_item_with_value(&self, val: i32) -> Option<InkListItem> {
-        for (item_name, value) in &self.item_name_to_values {
-            if *value == val {
-                return Some(InkListItem::new(Some(self.name.clone()), item_name.clone()));
-            }
-        }
-        None
+        // Several items may share a value: pick the smallest name, not whichever
+        // the map happens to yield first.
+        self.item_name_to_values
+            .iter()
+            .filter(|(_, value)| **value == val)
+            .map(|(item_name, _)| item_name)
+            .min()
+            .map(|item_name| InkListItem::new(Some(self.name.clone()), item_name.clone()))
     }
 }
